@@ -4,7 +4,7 @@ import re
 
 from ..core import AnalysisError, u, walk_local, enclosing_stmt
 from ..lib import (construct, std_facts, def_of, facts_at, calls_of_node,
-                   in_subtree, single_reaching_value, returns_of, format_sites)
+                   in_subtree, single_reaching_value, returns_of, format_sites, expand_expr)
 
 from .c19 import import_aliases
 from .common import method_selector_rule
@@ -173,20 +173,36 @@ def run(ctx):
     raise AnalysisError('markdown.process vanished')
   g3, facts3 = std_facts(prog, pr)
   p = pr.params[0]
-  nonc = [n for n in g3.live_nodes() if n.kind == 'return' and
-          any(fct[0] == 'c' and fct[2] is False and fct[1] == "%s.startswith('#')" % p for fct in facts3[n.id])]
+  def under_noncomment(n):
+    return any(fct[0] == 'c' and fct[2] is False and fct[1] == "%s.startswith('#')" % p for fct in facts3[n.id])
+  # what is produced for a non-comment line: a direct return, or the assignment of the result variable, on the non-comment branch
+  result_vars = {n.ast.value.id for n in g3.live_nodes() if n.kind == 'return' and isinstance(n.ast.value, ast.Name)}
+  nonc = [(n, n.ast.value) for n in g3.live_nodes() if n.kind == 'return' and n.ast.value is not None and under_noncomment(n)
+          and not (isinstance(n.ast.value, ast.Name) and n.ast.value.id in result_vars and def_of(facts3[n.id], n.ast.value.id) is None)]
+  nonc += [(n, n.ast.value) for n in g3.live_nodes() if n.kind == 'stmt' and isinstance(n.ast, ast.Assign) and len(n.ast.targets) == 1
+           and u(n.ast.targets[0]) in result_vars and under_noncomment(n)]
   ok = bool(nonc)
-  for n in nonc:
-    v = n.ast.value
+  for n, v0 in nonc:
+    v = expand_expr(facts3[n.id], v0, keep=(p,))
     same = isinstance(v, ast.BinOp) and isinstance(v.op, ast.Add) and isinstance(v.left, ast.Constant) and isinstance(v.left.value, str) \
         and v.left.value.strip() == '' and u(v.right) == p and def_of(facts3[n.id], p) is None
     ok = ok and same
   ctx.check(ok, 'C06.markdown', construct(pr), 'a non-comment line is returned verbatim behind a constant indent',
-            'a binding line is altered by the Markdown conversion (`%s`)' % [u(n.ast.value) for n in nonc], pr.loc(), instance='verbatim')
+            'a binding line is altered by the Markdown conversion (`%s`)' % [u(v0) for _n, v0 in nonc], pr.loc(), instance='verbatim')
   loops = [n for n in walk_local(md.node) if isinstance(n, ast.For) and not in_subtree(n, pr.node)]
-  ok = any(u(lp.iter) == md.params[0] + '.splitlines()' for lp in loops) and \
-      any(isinstance(r.value, ast.Call) and u(r.value.func) == "'\\n'.join" for r in returns_of(md) if r.value is not None and r.parent is md.node)
+  src = md.params[0] + '.splitlines()'
+  joins = [r.value for r in returns_of(md) if r.value is not None and r.parent is md.node and isinstance(r.value, ast.Call) and u(r.value.func) == "'\\n'.join"
+           and len(r.value.args) == 1]
+  ok = any(u(lp.iter) == src for lp in loops) and bool(joins)
   drops = [n for lp in loops for n in walk_local(lp) if isinstance(n, ast.If) and 'is not None' not in u(n.test)]
+  # equivalent one-expression forms: '\n'.join(map(process, S.splitlines())) / a comprehension over the lines
+  for j in joins:
+    a = j.args[0]
+    if isinstance(a, ast.Call) and u(a.func) == 'map' and len(a.args) == 2 and u(a.args[0]) == pr.name and u(a.args[1]) == src:
+      ok = True
+    if isinstance(a, (ast.ListComp, ast.GeneratorExp)) and len(a.generators) == 1 and u(a.generators[0].iter) == src \
+        and isinstance(a.elt, ast.Call) and u(a.elt.func) == pr.name and all('is not None' in u(i) for i in a.generators[0].ifs):
+      ok = True
   ctx.check(ok and not drops, 'C06.markdown', construct(md), 'every line is processed and kept (only None results are dropped)',
             'markdown() drops or re-joins lines differently', md.loc(), instance='all-lines')
 
